@@ -38,11 +38,14 @@ from pyoak.origin import CodeOrigin, get_code_range  # noqa: E402
 
 O["af"] = CodeOrigin(zoo.SRC_A, get_code_range(0, 2, 5, 1, 2, 6))   # same fqn as "a" (indices 0-1) but other line/column: unequal
 O["gf"] = CodeOrigin(zoo.SRC_B, get_code_range(0, 1, 0, 0, 1, 0))   # same fqn as the generated origin, other class: unequal
+# multi-origins with the same source set and positions whose MEMBERS differ in class only
+O["mg"] = merge_origins(zoo.O_A01, zoo.O_GEN)
+O["mgf"] = merge_origins(zoo.O_A01, O["gf"])
 OKEY = {k: k for k in O}
 OKEY["a2"] = "a"
 OKEY["m2"] = "m"
 BASE3 = ["-", "a", "b"]
-DEV = ["-", "a", "a2", "af", "b", "o", "g", "gf", "m", "m2"]
+DEV = ["-", "a", "a2", "af", "b", "o", "g", "gf", "m", "m2", "mg", "mgf"]
 
 
 def plan(tier, seed):
@@ -124,6 +127,19 @@ def check_tree(U, d, rec: Rec, cfg):
                     rec.violation("C02|non-node|eq", dict(case, other=repr(other)), "comparison with a non-node must be False")
             except Exception as e:  # noqa: BLE001
                 rec.violation("C02|non-node|raises", dict(case, other=repr(other)), f"comparison with a non-node raised {type(e).__name__}")
+    # every pair of letters of the full origin alphabet at every single position (the rest without origin)
+    base = {p: "-" for p in paths}
+    for i, p in enumerate(paths):
+        built = {}
+        for letter in DEV:
+            A1 = dict(base)
+            A1[p] = letter
+            built[letter] = build(U, d, A1)
+        for l1, l2 in itertools.product(DEV, repeat=2):
+            if n >= 2 and i > 0:
+                rec.count("nontrivial")
+            compare(rec, built[l1], built[l2], OKEY[l1] == OKEY[l2], {"tree": d, "at": p, "origin_a": l1, "origin_b": l2}, "origin-pair")
+        del built
     # transitivity on all triples of the group (nodes of one tree under all 3-origin assignments + one equal copy each)
     if n <= cfg["npair"]:
         group = list(nodes.items()) + [(c, build(U, d, dict(zip(paths, c)))) for c in nodes]
